@@ -72,6 +72,202 @@ def rule_sp_range(ctx: RuleContext, p: Program, rid: str) -> None:
                   '; '.join(problems) or 'ok', '; '.join(problems), s.where, note=f'splice(current[0], current[-1]) | {ins}({edge})')
 
 
+def rule_sp_acc(ctx: RuleContext, p: Program, rid: str, ctx_len: int = 3) -> None:
+    """finite-domain evaluation of the four raw spacing accessors against a mock store"""
+    import itertools
+    from . import possem
+    from .tokenstore import TS
+    ctx.rule(rid, 'raw_spacing_before / raw_spacing_after, getter and setter, interpreted over every document '
+                  '<left context> <model of 1-2 tokens> <right context> with contexts of up to %d abstract tokens (zero-width mark, empty blank, '
+                  'non-empty blank, other) against a mock store: the getter returns, in document order, the non-empty blanks of the run '
+                  'adjacent to the model\'s first / last token; the setter leaves a document in which exactly the span from the first to the '
+                  'last token of that run is replaced by the new tokens -- or, with no run, the new tokens are inserted right before the first '
+                  '/ right after the last token of the model -- and everything else is untouched; without a store the setter raises before '
+                  'doing anything' % ctx_len)
+    m = p.module('models.internal.spacing_accessors')
+    mx = p.cls('SpacingAccessorsMixin', 'models.internal.spacing_accessors')
+    ts = TS(p)
+    class_of = {'Eol': p.cls('Eol'), 'Whitespace': p.cls('Whitespace'), 'Newline': p.cls('Newline'), 'Account': p.cls('Account')}
+    kinds = {'Z': ('Eol', ''), 'z': ('Whitespace', ''), 'S': ('Whitespace', ' '), 'O': ('Account', 'x'), 'N': ('Newline', '\n')}
+    getters = {side: p.method(mx, f'raw_spacing_{side}', inherited=False) for side in ('before', 'after')}
+    setters = {side: p.method(mx, f'raw_spacing_{side}', setter=True, inherited=False) for side in ('before', 'after')}
+
+    class Interp(possem.PosInterp):
+        tag = 'SP-ACC'
+
+        def __init__(self, doc: list, me: Any) -> None:
+            super().__init__(ts, [], module=m)
+            self.doc, self.me = doc, me
+            self.edits = 0
+
+        def idx(self, t: Any, node: Any) -> int:
+            for i, x in enumerate(self.doc):
+                if x is t:
+                    return i
+            raise possem.Raised('ValueError: token is not in the store')
+
+        def store_call(self, name: str, args: list, node: Any) -> Any:
+            d = self.doc
+            if name in ('get_prev', 'get_next'):
+                i = self.idx(args[0], node)
+                j = i - 1 if name == 'get_prev' else i + 1
+                return d[j] if 0 <= j < len(d) else None
+            self.edits += 1
+            if name == 'splice':
+                new, a, b = list(args[0]), args[1], args[2] if len(args) > 2 else None
+                i = 0 if a is None else self.idx(a, node)
+                j = i if b is None else self.idx(b, node) + 1
+                d[i:j] = new
+                return None
+            if name in ('insert_before', 'insert_after'):
+                ref, new = args[0], list(args[1])
+                i = (0 if ref is None else self.idx(ref, node)) if name == 'insert_before' else (0 if ref is None else self.idx(ref, node) + 1)
+                d[i:i] = new
+                return None
+            if name == 'remove':
+                i = self.idx(args[0], node)
+                j = self.idx(args[1], node) + 1 if len(args) > 1 and args[1] is not None else i + 1
+                del d[i:j]
+                return None
+            if name == 'replace':
+                d[self.idx(args[0], node)] = args[1]
+                return None
+            raise self.err(node, f'store method {name}')
+
+        def expr(self, e: Any, env: dict) -> Any:            # type: ignore[override]
+            if isinstance(e, ast.Attribute):
+                b = e.value
+                if isinstance(b, ast.Name) and env.get(b.id) is self.me:
+                    if e.attr in ('raw_spacing_before', 'raw_spacing_after'):
+                        return self.call_function(getters[e.attr.rsplit('_', 1)[1]], [self.me], {})
+                    if e.attr in self.me.f:
+                        return self.me.f[e.attr]
+                bv = self.expr(b, env) if not (isinstance(b, ast.Name) and b.id not in env) else None
+                if isinstance(bv, possem.Obj) and bv.cls == 'Store':
+                    name = e.attr
+                    return lambda *a: self.store_call(name, list(a), e)
+            if isinstance(e, (ast.Name, ast.Attribute)) and not (isinstance(e, ast.Name) and e.id in env):
+                sym_ = p.resolve_expr(m, e)
+                if isinstance(sym_, ClassInfo):
+                    return sym_
+                if isinstance(e, ast.Name) and isinstance(sym_, FuncInfo):
+                    return sym_
+            if isinstance(e, ast.BinOp) and isinstance(e.op, ast.BitOr):
+                l, r = self.expr(e.left, env), self.expr(e.right, env)
+                flat: list = []
+                for x in (l, r):
+                    flat.extend(x if isinstance(x, tuple) else [x])
+                return tuple(flat)
+            if isinstance(e, ast.Call) and isinstance(e.func, ast.Name) and e.func.id == 'isinstance' and e.func.id not in env:
+                v = self.expr(e.args[0], env)
+                c = self.expr(e.args[1], env)
+                cs = c if isinstance(c, tuple) else (c,)
+                if not all(isinstance(k, ClassInfo) for k in cs):
+                    raise self.err(e, 'isinstance against something that is not a repository class')
+                return isinstance(v, possem.Obj) and v.cls in class_of and any(class_of[v.cls].is_subclass_of(k) for k in cs)
+            if isinstance(e, ast.Call):
+                f = self.expr(e.func, env) if not (isinstance(e.func, ast.Name) and e.func.id not in env) else None
+                if callable(f) and not isinstance(f, (FuncInfo, possem.Builtin, possem.Bound, possem.ClassRef, possem._Lambda)):
+                    return f(*[self.expr(a, env) for a in e.args])
+            return super().expr(e, env)
+
+        def stmt(self, st: Any, env: dict) -> None:           # type: ignore[override]
+            if isinstance(st, ast.Raise):
+                raise possem.Raised(norm(st.exc)[:60] if st.exc is not None else 'raise')
+            if isinstance(st, ast.Assign) and len(st.targets) == 1 and isinstance(st.targets[0], ast.Attribute) \
+                    and isinstance(st.targets[0].value, ast.Name) and env.get(st.targets[0].value.id) is self.me \
+                    and st.targets[0].attr in ('raw_spacing_before', 'raw_spacing_after'):
+                self.call_function(setters[st.targets[0].attr.rsplit('_', 1)[1]], [self.me, self.expr(st.value, env)], {})
+                return
+            super().stmt(st, env)
+
+    def run_ref(doc: list, side: str, first: int, last: int) -> list[int]:
+        i = first - 1 if side == 'before' else last + 1
+        step = -1 if side == 'before' else 1
+        while 0 <= i < len(doc) and doc[i].f['raw_text'] == '':
+            i += step
+        out = []
+        while 0 <= i < len(doc) and doc[i].cls in ('Whitespace', 'Newline'):
+            if doc[i].f['raw_text']:
+                out.append(i)
+            i += step
+        return sorted(out)
+
+    def mk(seq: str, tag: str) -> list:
+        return [possem.Obj(kinds[ch][0], {'raw_text': kinds[ch][1]}, f'{tag}{i}:{ch}') for i, ch in enumerate(seq)]
+
+    problems: dict[str, str] = {}
+    n = 0
+    ctxs = [''.join(x) for k in range(0, ctx_len + 1) for x in itertools.product('ZzSON', repeat=k)]
+    for left in ctxs:
+        for right in ctxs:
+            for msize in (1, 2):
+                for side in ('before', 'after'):
+                    if (side == 'before' and right not in ('', 'S')) or (side == 'after' and left not in ('', 'S')):
+                        continue          # the far side is irrelevant to this accessor: two representatives are enough
+                    doc = mk(left, 'l') + mk('O' * msize, 'm') + mk(right, 'r')
+                    store = possem.Obj('Store', {}, 'store')
+                    first, last = len(left), len(left) + msize - 1
+                    me = possem.Obj('Model', {'token_store': store, 'first_token': doc[first], 'last_token': doc[last]}, 'model')
+                    show = f'{" ".join(left) or "-"} [{"O " * msize}] {" ".join(right) or "-"}'.replace('Z', 'mark').replace('z', 'empty').replace('S', 'blank').replace('N', 'newline').replace('O', 'other')
+                    want = run_ref(doc, side, first, last)
+                    it = Interp(list(doc), me)
+                    n += 1
+                    try:
+                        got = it.call_function(getters[side], [me], {})
+                    except possem.Raised as ex:
+                        problems.setdefault(f'raw_spacing_{side}', f'document {show}: the getter raises {ex}')
+                        continue
+                    gi = [next((i for i, t in enumerate(doc) if t is r), -1) for r in (got or ())]
+                    if gi != want or it.edits:
+                        problems.setdefault(f'raw_spacing_{side}', f'document {show}: the getter returns positions {gi}, the adjacent run (in document order) is {want}'
+                                            + ('; it edits the store' if it.edits else ''))
+                        continue
+                    new = [possem.Obj('Whitespace', {'raw_text': '  '}, 'new0'), possem.Obj('Newline', {'raw_text': '\n'}, 'new1')]
+                    for payload in (new, []):
+                        work = list(doc)
+                        it2 = Interp(work, me)
+                        try:
+                            it2.call_function(setters[side], [me, tuple(payload)], {})
+                        except possem.Raised as ex:
+                            problems.setdefault(f'raw_spacing_{side}[set]', f'document {show}: the setter raises {ex}')
+                            continue
+                        if want:
+                            exp = doc[:want[0]] + payload + doc[want[-1] + 1:]
+                        elif side == 'before':
+                            exp = doc[:first] + payload + doc[first:]
+                        else:
+                            exp = doc[:last + 1] + payload + doc[last + 1:]
+                        if [id(x) for x in work] != [id(x) for x in exp]:
+                            def names(ts_: list) -> str:
+                                return ' '.join(t.label for t in ts_)
+                            problems.setdefault(f'raw_spacing_{side}[set]', f'document {show}: assigning {len(payload)} token(s) gives [{names(work)}], expected [{names(exp)}]')
+    # no store: refused before anything happens
+    for side in ('before', 'after'):
+        tok = possem.Obj('Account', {'raw_text': 'x'}, 'free')
+        me = possem.Obj('Model', {'token_store': None, 'first_token': tok, 'last_token': tok}, 'free model')
+        it = Interp([tok], me)
+        try:
+            it.call_function(setters[side], [me, ()], {})
+            problems.setdefault(f'raw_spacing_{side}[set]', 'without a token store the setter does not raise')
+        except possem.Raised:
+            pass
+        it = Interp([tok], me)
+        try:
+            r = it.call_function(getters[side], [me], {})
+            if r not in ((), []):
+                problems.setdefault(f'raw_spacing_{side}', f'without a token store the getter returns {r!r}')
+        except possem.Raised as ex:
+            problems.setdefault(f'raw_spacing_{side}', f'without a token store the getter raises {ex}')
+    if n < 500:
+        raise AnalysisError(f'SP-ACC: only {n} documents evaluated')
+    for side in ('before', 'after'):
+        for suffix, fn in (('', getters[side]), ('[set]', setters[side])):
+            key = f'raw_spacing_{side}{suffix}'
+            ctx.check(key not in problems, rid, f'models.internal.spacing_accessors:SpacingAccessorsMixin.{key}', 'adjacent run read / replaced',
+                      problems.get(key, ''), fn.where, note=f'{n} documents')
+
+
 def rule_sp_route(ctx: RuleContext, p: Program, rid: str) -> None:
     ctx.rule(rid, 'spacing_before/after route to raw_spacing_before/after of the same side through _tokens_to_text / '
                   '_text_to_tokens; _tokens_to_text concatenates raw_text of every token; _text_to_tokens yields a Whitespace for '
@@ -111,7 +307,7 @@ def rule_sp_route(ctx: RuleContext, p: Program, rid: str) -> None:
 
 
 def run(ctx: RuleContext, p: Program) -> None:
-    ctx.try_rule(rule_sp_range, p, 'SP-RANGE')
+    ctx.try_rule(rule_sp_acc, p, 'SP-ACC', 3 if ctx.tier == 'quick' else 4)
     ctx.try_rule(rule_sp_route, p, 'SP-ROUTE')
     ctx.try_rule(rule_sp_sem, p, 'SP-SEM', 5 if ctx.tier == 'quick' else 7)
     from . import grammar_rules
